@@ -437,7 +437,7 @@ class Limits:
             world.db.fs_tx_hash = held
             try:
                 first = asyncio.ensure_future(ask(sess, 'blockchain.scripthash.get_history', tag))
-                for _ in range(2000):
+                for _ in range(24000):               # (up to two minutes on a loaded machine)
                     if entered.is_set():
                         break
                     await asyncio.sleep(0.005)
